@@ -44,6 +44,11 @@ func nowOp(_ *dataTreeNavigator, context Context, _ *ExpressionNode) (Context, e
 		Kind:  ScalarNode,
 		Value: Now().Format(time.RFC3339),
 	}
+	if context.MatchingNodes.Len() > 0 {
+		// evaluated for a node of some document: a result of that document (and file)
+		current := context.MatchingNodes.Front().Value.(*CandidateNode)
+		node.document, node.filename, node.fileIndex = current.GetDocument(), current.GetFilename(), current.GetFileIndex()
+	}
 
 	return context.SingleChildContext(node), nil
 
